@@ -315,7 +315,7 @@ Definition fresh_cpp (e : elements) : list string := flat_map (ref_item16 e) t_c
 
 Theorem wf_fresh_cpp e : names_ok t_cpp e = true -> wf_fresh_file (fresh_cpp e) = true.
 Proof.
-  intros H. apply fresh_of_template; [exact (names_fine_of e H)|exact grammar07_cpp|exact items_ok_cpp|exact (nodup_keys_cpp e H)].
+  intros H. apply fresh_of_template; [exact (names_fine_of e H)|exact grammar07_cpp|reflexivity|exact items_ok_cpp|exact (nodup_keys_cpp e H)].
 Qed.
 
 (* for EVERY model with admissible names and EVERY assignment of user tags: what smgen.Generate writes for the file is
@@ -328,7 +328,7 @@ Theorem shipped_cpp_wf_out m (a : usertags) :
 Proof.
   intros H. pose proof (names_fine_of _ H) as Hn.
   assert (G7 : inky t_cpp = true) by (vm_compute; reflexivity).
-  pose proof (names_wf16 _ t_cpp Hn items_ok_cpp G7) as W.
+  pose proof (names_wf16 _ t_cpp Hn items_ok_cpp G7 eq_refl) as W.
   assert (NU : no_user_lines t_cpp = true) by (vm_compute; reflexivity).
   destruct (shipped_output lines_cpp l0_cpp t_cpp shipped_cpp m a NU W) as [O T].
   split; [exact O|]. split; [exact T|exact (wf_fresh_cpp _ H)].
